@@ -291,7 +291,18 @@ func c17Search(r *rand.Rand, bin, dir string, id int) c17Case {
 			args = append(args, "--no-cross-platform")
 		}
 	}
-	args = append(args, "--database", dbfile, "--", q) // "--": a query may begin with a dash
+	if id%6 == 4 && len(strings.Fields(q)) > 0 {
+		// an unquoted query: one argument per word, an empty argument among them; the query is the arguments joined by blanks
+		words := append(strings.Fields(q), "")
+		if id%12 == 4 {
+			words = append([]string{""}, strings.Fields(q)...)
+		}
+		q = strings.Join(words, " ")
+		c.Query = ints(q)
+		args = append(append(args, "--database", dbfile, "--"), words...)
+	} else {
+		args = append(args, "--database", dbfile, "--", q) // "--": a query may begin with a dash
+	}
 	c.Args, c.Env = intsList(args), env
 
 	// a history already present in 1/3 of the runs
